@@ -35,6 +35,9 @@ impl<'a> SplitStrv<'a> {
         // skip initial whitespace
         self.parse_until_none_of(separators);
 
+        // like systemd: once a non-separator is found a word is returned, even if it stays empty
+        let started = self.c.is_some();
+
         let mut quote: Option<char> = None; // None or Some('\'') or Some('"')
         while let Some(c) = self.c {
             if let Some(q) = quote {
@@ -57,7 +60,7 @@ impl<'a> SplitStrv<'a> {
             self.bump();
         }
 
-        if word.is_empty() {
+        if word.is_empty() && !started {
             None
         } else {
             Some(word)
@@ -120,6 +123,9 @@ impl<'a> SplitWord<'a> {
         // skip initial whitespace
         self.parse_until_none_of(separators);
 
+        // like systemd: once a non-separator is found a word is returned, even if it stays empty
+        let started = self.c.is_some();
+
         let mut quote: Option<char> = None; // None or Some('\'') or Some('"')
         let mut backslash = false; // whether we've just seen a backslash
         while let Some(c) = self.c {
@@ -163,7 +169,7 @@ impl<'a> SplitWord<'a> {
         //     // otherwise we'd have to push it onto `word`
         // }
 
-        if word.is_empty() {
+        if word.is_empty() && !started {
             None
         } else {
             Some(word)
